@@ -2,7 +2,7 @@
    operations the modelled code uses. *)
 From Coq Require Import List Bool NArith Ascii String.
 Import ListNotations.
-Open Scope N_scope.
+Local Open Scope N_scope.
 
 Definition str := list N.
 
